@@ -204,7 +204,9 @@ class NamedObject:
       # can be infinitely iterated and cause infinite loop. Special
       # casing Wire will be a mess around everywhere.
 
-      elif isinstance( obj, list ) and obj and isinstance( obj[0], (NamedObject, list) ):
+      # (the first element may be None: a list with holes still names the
+      # hardware objects it holds)
+      elif isinstance( obj, list ) and any( isinstance( x, (NamedObject, list) ) for x in obj ):
         fields = sd.NamedObject_fields
         if name in fields:
           if getattr( s, name ) is obj:
